@@ -75,7 +75,14 @@ impl LocalSpanStack {
         let epoch = self.next_span_line_epoch;
         self.next_span_line_epoch = self.next_span_line_epoch.wrapping_add(1);
 
+        #[cfg(fastrace_verif)]
+        let collect_token_verif = collect_token.clone();
         let span_line = SpanLine::new(DEFAULT_SPAN_QUEUE_SIZE, epoch, collect_token);
+        #[cfg(fastrace_verif)]
+        let span_line = {
+            drop(span_line);
+            SpanLine::new(crate::verif::queue_capacity(), epoch, collect_token_verif)
+        };
         self.span_lines.push(span_line);
         Some(SpanLineHandle {
             span_line_epoch: epoch,
@@ -153,6 +160,12 @@ impl LocalSpanStack {
     pub fn current_span_line(&mut self) -> Option<&mut SpanLine> {
         self.span_lines.last_mut()
     }
+}
+
+/// Sets the capacity of the calling thread's span stack (verification hook).
+#[cfg(fastrace_verif)]
+pub fn verif_set_stack_capacity(capacity: usize) {
+    LOCAL_SPAN_STACK.with(|stack| stack.borrow_mut().capacity = capacity);
 }
 
 pub struct SpanLineHandle {
